@@ -38,9 +38,9 @@ def why (s : S) : Ev → String
   | .pk p =>
     if !s.writing then "model packet outside a write" else
     match p with
-    | .puback _ => "C04 PUBACK written although no received QoS 1 PUBLISH with this identifier awaits its acknowledgement"
-    | .pubrec _ => "C04 PUBREC written although no received QoS 2 PUBLISH with this identifier awaits its acknowledgement"
-    | .pubcomp _ => "C04 PUBCOMP written although no PUBREL for this identifier was taken by a waiting exchange"
+    | .puback _ => "C04 PUBACK written although the QoS 1 PUBLISH next in line for its acknowledgement has another identifier (none received, or acknowledgements leave out of order)"
+    | .pubrec _ => "C04 PUBREC written although the QoS 2 PUBLISH next in line for its acknowledgement has another identifier (none received, or acknowledgements leave out of order)"
+    | .pubcomp _ => "C04 PUBCOMP written although the exchange next in line for its PUBCOMP has another identifier (no PUBREL taken by a waiting exchange, or acknowledgements leave out of order)"
     | .other => "model ?"
   | .deliver q _ _ =>
     match s.stored with
